@@ -17,14 +17,17 @@ SPEC = dict(
     technique='lemmas over contracts proved under C06/C11 (slice, span builders) + bounded run-time contract check of the real digest '
               'dispatcher (labelled stand-in)',
     contracts=['annot', 'digest'],
-    targets={'annot': ['peptacular.proforma.proforma_parser:ProFormaAnnotation.slice',
+    targets={'annot': ['peptacular.proforma.proforma_parser:ProFormaAnnotation.slice', 'peptacular.proforma.proforma_parser:ProFormaAnnotation.slice@anycut',
                        'peptacular.proforma.proforma_parser:ProFormaAnnotation.has_mods'],
              'digest': ['peptacular.digestion:_return_digested_sequences@' + t for t in ('span', 'annotation', 'str', 'annotation-span', 'str-span', 'unknown')] +
                        []},
     bounded=[dict(name='C07-bounded', script='bounded/C07.py')],
     replay_finder='bounded/C07.py',
     explanation='slice#ensures re-proved in this check (it carries the first sentence of the property) + bounded composition check',
-    proved_clauses=['every return type of the digest dispatcher is, per span and in order, the slice of the protein at that span (or its text, or the span)',
+    proved_clauses=['slice(s,e) wherever the cuts fall (also strictly inside an ambiguity interval, as a digest of such a protein does): the peptide is '
+                    'WELL FORMED (every interval non-empty and inside the new residues, each a clipped interval of the protein with its own '
+                    'modifications), with the residues / residue / terminal / global modifications of the range (slice~anycut)',
+                    'every return type of the digest dispatcher is, per span and in order, the slice of the protein at that span (or its text, or the span)',
                     'slice(s,e): exactly residues s..e-1, residue modifications on the same residues, termini only with the terminus, globals kept (C11 contract, re-discharged here)'],
     bounded_clauses=['the sequence generators; all five return types agree on real digests', 'string re-parses to the annotation; found again at offset s',
                      'zero-missed-cleavage masses sum to protein mass + one water per cut'],
